@@ -8,6 +8,7 @@ import (
 	"encoding/pem"
 	"fmt"
 	"path"
+	"strconv"
 	"time"
 
 	"github.com/google/gce-tcb-verifier/cmd/output"
@@ -122,6 +123,16 @@ func runC03(r *core.Run) {
 			case 1:
 				ra.SerialOverride = usedSerials[r.Intn(len(usedSerials), "colliding-serial")]
 				kind = "c"
+			}
+			if r.Chance(8, "root-twin-subject?") {
+				// the operator gives the new signing key the root's own common name and serial: its
+				// certificate's subject then equals its issuer's. It is still a leaf the root issued.
+				if h := a.CheckHealth(a.Now); h.Root != nil {
+					if n, perr := strconv.ParseInt(h.Root.Subject.SerialNumber, 10, 64); perr == nil && n != 0 {
+						ra.SignCN, ra.SerialOverride, kind = h.Root.Subject.CommonName, n, "t"
+						r.Probe("root-twin-subject-rotation")
+					}
+				}
 			}
 			err, _ := a.Rotate(ra)
 			if err == nil {
